@@ -73,6 +73,7 @@ func (m *Mutex) TryLock() bool {
 //go:norace
 func (m *Mutex) Unlock() {
 	m.init()
+	vrt.Yield()
 	if !m.locked {
 		panic("sync: unlock of unlocked mutex")
 	}
@@ -201,6 +202,7 @@ func (g *WaitGroup) VrtKey() uint64 { return g.r.id }
 //go:norace
 func (g *WaitGroup) Add(delta int) {
 	g.init()
+	vrt.Yield() // every synchronisation operation is a scheduling point
 	if delta < 0 {
 		vrt.RaceRel(&g.hb)
 	}
@@ -253,6 +255,7 @@ func (o *Once) VrtKey() uint64 { return o.r.id }
 func (o *Once) Do(f func()) {
 	o.init()
 	if o.done {
+		vrt.Yield()
 		vrt.RaceAcq(&o.hb)
 		return
 	}
